@@ -17,15 +17,29 @@ def showTask : TaskId → String
 def showList (xs : List String) (sep : String) : String :=
   if xs.isEmpty then "-" else sep.intercalate xs
 
+/-- awaiters and reader tasks are numbered separately, each in spawn order -/
+def taskName (s : State) : TaskId → String
+  | .d => "d"
+  | .e => "e"
+  | .a i =>
+    match s.aws[i]? with
+    | some a =>
+      let k := ((s.aws.take i).filter fun b => b.kind == a.kind).length
+      (if a.kind == .reader then "r" else "a") ++ toString k
+    | none => "?"
+
 def obs (s : State) : String :=
-  let rl := showList ((readyList s).map showTask) ","
+  let rl := showList ((readyList s).map (taskName s)) ","
   let fin := showList (s.curInputs.map toString) "."
-  let aw := showList (s.aws.map fun a => if a.done then showOpt a.result else "-") ","
+  let aw := showList ((s.aws.filter fun a => a.kind == .awaiter).map fun a =>
+    if a.done then showOpt a.result else "-") ","
   let eff := showList (s.eLog.map fun (d, m) => s!"{showOpt d}:{showOpt m}") ";"
   let v := match oracle s with | none => "ok" | some c => s!"fail {c}"
-  s!"rl={rl} val={showOpt s.value} ld={showB s.loading} nf={s.nf} fin={fin} aw={aw} eff={eff} ## {v}"
+  s!"rl={rl} val={showOpt s.value} ld={showB s.loading} nf={s.nf} fin={fin} aw={aw} eff={eff} bp={s.pending} ## {v}"
 
 def kinds : List String := ["arc", "arena", "arc-unsync", "arena-unsync"]
+def resKinds : List String := ["res", "res-arc", "res-blocking"]
+def onceKinds : List String := ["once", "once-arc"]
 
 def parseEff : String → Option EffKind
   | "none" => some .none
@@ -35,11 +49,14 @@ def parseEff : String → Option EffKind
   | _ => none
 
 def parseCfg4 (kind srcs ini eff : String) (via : Bool) : Option Cfg :=
-  if !kinds.contains kind then none else
+  let res := resKinds.contains kind
+  let once := onceKinds.contains kind
+  if !(kinds.contains kind || res || once) then none else
   match (srcs.splitOn ",").mapM String.toNat?, parseEff eff with
   | some vs, some e =>
     if vs.isEmpty || vs.length > 3 then none else
-    if ini == "-" then some { srcs := vs, init := none, eff := e, viaMemo := via }
+    if ini == "-" then some { srcs := vs, init := none, eff := e, viaMemo := via, res := res, once := once }
+    else if res || once then none
     else ini.toNat?.map fun v => { srcs := vs, init := some v, eff := e, viaMemo := via }
   | _, _ => none
 
@@ -47,12 +64,16 @@ def parseCfg (w : List String) : Option Cfg :=
   match w with
   | [kind, srcs, ini, eff] => parseCfg4 kind srcs ini eff false
   | [kind, srcs, ini, eff, via] =>
-    if via == "sig" then parseCfg4 kind srcs ini eff false
+    if !kinds.contains kind then none
+    else if via == "sig" then parseCfg4 kind srcs ini eff false
     else if via == "memo" then parseCfg4 kind srcs ini eff true
     else none
   | _ => none
 
 def stepOp (s : State) (w : List String) : Option State :=
+  -- a `OnceResource` has no sources to write, no `refetch`, no `Write` impl and no `by_ref`
+  if s.once && (w.head? == some "set" || w.head? == some "refetch" || w.head? == some "mset" ||
+      w == ["attach", "b"]) then none else
   match w with
   | ["set", i, v] =>
     match i.toNat?, v.toNat? with
@@ -68,6 +89,7 @@ def stepOp (s : State) (w : List String) : Option State :=
   | ["poll", j] => j.toNat?.map fun j => step s (.poll j)
   | ["idle"] => some (runIdle (4 * s.aws.length + 16) s)
   | ["get"] => some (step s .get)
+  | ["bread"] => some (step s .bread)
   | _ => none
 
 def stepLine (d : Option State) (line : String) : Option State × String :=
